@@ -89,6 +89,19 @@ func decodeReal(d bleDecoder, inp, spare []byte) (out string) {
 		}
 	}()
 	v, err := d.call(arg)
+	// the decoder only reads: neither the input nor the bytes between len and cap (the rest of the caller's buffer, e.g. the next
+	// record of a packed block) may have been written
+	for i := range buf {
+		want := byte(0)
+		if i < len(inp) {
+			want = inp[i]
+		} else {
+			want = spare[i-len(inp)]
+		}
+		if buf[i] != want {
+			return fmt.Sprintf("WROTE-TO-CALLERS-BUFFER at index %d (len %d, cap %d): %02X -> %02X", i, len(inp), len(buf), want, buf[i])
+		}
+	}
 	if err != nil {
 		return "err:" + errKind(err)
 	}
@@ -145,6 +158,9 @@ var bleMut string // appended to every operation line (a process-wide setting un
 
 func emitBle(s *Sink, d bleDecoder, tag string, inp, spare []byte) string {
 	out := decodeReal(d, inp, spare)
+	if strings.HasPrefix(out, "WROTE-TO") {
+		s.Violate(fmt.Sprintf("BD %s %s %s", d.name, hexOrDash(inp), hexOrDash(spare))+bleMut, out, d.name+": the decoder modified the caller's buffer (it may only read, and only up to the slice's length)")
+	}
 	if specMode {
 		s.Line(tag+"-spec", fmt.Sprintf("BS %s %s", d.name, hexOrDash(inp))+bleMut, out)
 	} else {
